@@ -24,6 +24,7 @@ func main() {
 	// the repository logs through logrus' standard logger; log text is never an observable
 	logrus.SetOutput(io.Discard)
 	logrus.SetLevel(logrus.PanicLevel)
+	fw.DispatchChild()
 	if len(os.Args) < 2 {
 		die(2, "usage: vh gen <dir> | vh run <Cxx> [flags] | vh replay <Cxx> <input-file> [flags] | vh list")
 	}
